@@ -142,3 +142,6 @@ Example undisciplined_race : race [Acc 1 7 true; Acc 2 7 false] 7.
 Proof.
   exists 0, 1, 1, 2, true, false. repeat split; auto; try discriminate. apply no_hb_without_sync.
 Qed.
+
+Lemma package_state_reviewed : package_state_ok package_level_state = true.
+Proof. vm_compute. reflexivity. Qed.
